@@ -168,6 +168,12 @@ func suiteFresh(r *rng, n int) {
 			locHeaders = []string{"Cache-Control:" + add}
 			hm = h.Clone()
 			hm["Cache-Control"] = append(hm["Cache-Control"], add)
+			if cr.chance(40) {
+				// two configured headers of the same name: both are added, in this order
+				add2 := cr.pick([]string{"public", "s-maxage=1", "no-transform", "private"})
+				locHeaders = append(locHeaders, "Cache-Control:"+add2)
+				hm["Cache-Control"] = append(hm["Cache-Control"], add2)
+			}
 		}
 		location.Reset([]config.LocationConfig{{Name: "l1", Upstream: "u1", RespHeaders: locHeaders}})
 		// every upstream answer carries its own serial number: a response served twice is recognisable
